@@ -10,14 +10,15 @@ META = {
              "reference implementation exists in this sandbox). Coq: an executable reference over Z-valued tensors (shape + row-major "
              "data) for broadcasting Add/Sub/Mul/Div/Mod/Pow, comparisons, And/Or/Xor/Not, Where, Transpose, Reshape, Squeeze, Unsqueeze, "
              "Concat, Split, Slice, Gather, GatherElements, GatherND, Expand, Tile, Pad, Reduce{Sum,Prod,Max,Min,SumSquare,L1}, "
-             "ArgMax/ArgMin, CumSum, Trilu, Range, OneHot, TopK, MatMul, Gemm, ScatterElements, ScatterND; each definition is PROVED, for "
+             "ArgMax/ArgMin, CumSum, Trilu, Range, OneHot, TopK, MatMul, Gemm, ScatterElements, ScatterND, MaxPool(2-D); each definition is PROVED, for "
              "all shapes/attributes in the specification's domain, to satisfy an index-level statement transcribed from the ONNX operator "
              "text (forall valid output index: the source index is in bounds and out[idx] = ...), plus shape lemmas. Tie: single-operator "
              "ONNX models written by the harness (attributes incl. negative axes/steps/modes/keepdims, opset variants where parameters "
              "moved from attributes to inputs, i32/i64/bool/integer-valued f32 data as run inputs or initializers, rank <= 4, dims <= 5 "
              "incl. 0 and 1) are loaded with Model::load and run; output shapes, element kinds and values are compared EXACTLY with the "
-             "reference inside Coq. Float-only operators (unary math, Softmax, normalisations, Resize, Conv, pooling, Einsum, "
-             "quantisation) are outside the proof and are not exercised by this check."),
+             "reference inside Coq. Float-only operators (unary math, Softmax, normalisations, Resize, Conv, AveragePool, Einsum, "
+             "quantisation, RNNs) are outside the proof and are NOT exercised by this check; corners where the ONNX text and the ONNX "
+             "reference implementation disagree are left undefined (docs/C15.md)."),
     "note": ("Trusted: Coq kernel; the transcription of the ONNX operator text into the spec statements; the harness (protobuf writer, "
              "canonical printing); the correspondence sample (a test). i64/bool are represented as i32 (i64 saturating) by design; values "
              "are kept inside the exactly-representable sub-domain (i32 range, |v| <= 2^24 for f32) and the reference is undefined outside "
@@ -43,9 +44,9 @@ THEOREMS = [
     "C15_reduce_op_spec", "C15_arg_reduce_spec", "C15_cumsum_range_spec", "C15_cumsum_spec",
     "C15_trilu_spec", "C15_range_spec", "C15_onehot_spec", "C15_matmul_spec",
     "C15_gemm_spec", "C15_reshape_spec", "C15_squeeze_spec", "C15_unsqueeze_spec",
-    "C15_topk_list_spec", "C15_topk_spec", "C15_out_eqb_spec", "C15_prop_ok_reflect",
-    "C15_sign_zero_refuted", "C15_sign_of_zero", "C15_nonvacuous_slice_negative_step", "C15_nonvacuous_broadcast_mod",
-    "C15_nonvacuous_reduce_argmax", "C15_nonvacuous_run_ref",
+    "C15_topk_list_spec", "C15_topk_spec", "C15_pool_window_spec", "C15_maxpool2d_spec",
+    "C15_out_eqb_spec", "C15_prop_ok_reflect", "C15_sign_zero_refuted", "C15_sign_of_zero",
+    "C15_nonvacuous_slice_negative_step", "C15_nonvacuous_broadcast_mod", "C15_nonvacuous_reduce_argmax", "C15_nonvacuous_run_ref",
 ]
 
 
@@ -73,7 +74,8 @@ def evaluate(ctx, name, cases):
     for c in cases[:3]:
         if len(ctx.samples) < 12:
             ctx.samples.append({"check": name, "input": c["input"][:400], "tag": c.get("tag", "")})
-    undef, pf, err = ctx.coq_eval_cases(GROUP, REQ, terms, "defined", "prop_ok", shard=200, tag=re.sub(r"\W", "", name)[:12])
+    shard = max(150, -(-len(terms) // vf.NCPU))   # few, large shards: loading the libraries dominates small ones
+    undef, pf, err = ctx.coq_eval_cases(GROUP, REQ, terms, "defined", "prop_ok", shard=shard, timeout=3000, tag=re.sub(r"\W", "", name)[:12])
     if err:
         raise vf.CheckerBroken("model evaluation failed for %s: %s" % (name, err))
     per_op = {}
@@ -98,7 +100,7 @@ def evaluate(ctx, name, cases):
                 ctx.known(fid)
             continue
         op = c["input"].split(" ", 1)[0]
-        if reported < 3 and op not in seen_ops:
+        if reported < 8 and op not in seen_ops:
             seen_ops.add(op)
             detail = ctx.coq_eval_show(GROUP, REQ, "show (%s)" % c["term"])
             ctx.violation({"kind": "property-failure", "check": name, "input": c["input"], "coq_case": c["term"],
@@ -124,7 +126,7 @@ def main(ctx):
     if not ok:
         raise vf.CheckerBroken("model does not compile: " + out[-800:])
     only = os.environ.get("C15_ONLY")
-    n = int(os.environ.get("C15_N", ctx.n(4000, 60000)))
+    n = int(os.environ.get("C15_N", ctx.n(1600, 16000)))
     cases = ctx.gen_exec(bindir, "c15", n, extra_gen=[only] if only else [], inputs=ctx.replay_inputs(),
                          env={"RTEN_NUM_THREADS": "2"})
     undef, pf = evaluate(ctx, "onnx-single-operator", cases)
